@@ -55,6 +55,55 @@ def _links_goal(case):
     return "links_ok [%s] = true" % "; ".join(rows)
 
 
+_PRO_PRELUDE = """From Oras Require Import Base.Prelude Model.CopySpec Model.CopyTop.
+Local Open Scope nat_scope.
+"""
+
+
+def prologue_check(d, tier, coq, build):
+    """Copy's prologue: the source reads the wrappers saw in the prologue and the initial proxy cache the acceptor was
+    given are what CopyTop.prologue_fetches / cache_after_resolve compute (vm_compute inside Coq)"""
+    want = 1500 if tier == "thorough" else 200
+    goals, seen = [], set()
+    with open(os.path.join(d, "cases.txt")) as f:
+        for l in f:
+            i, _, c = l.rstrip("\n").partition(" ")
+            p = c.split(" ")
+            pr = [x for x in p if x.startswith("pr=")]
+            if not pr or len(p) < 9 or p[3].startswith("-") and False:
+                continue
+            rf, r0, mp, kind, cfg, ok, ismf, empty, obs = pr[0][3:].split(":")
+            if any(t == "CX" for t in p[7].split(",")[:1]) :
+                continue  # context already ended: the prologue may stop early
+            key = (pr[0], p[4])
+            if key in seen or (kind == "n" and rf == "0" and len(goals) > want // 4):
+                continue
+            seen.add(key)
+            pt = {"n": "PTNone", "l": "PTList", "o": "PTOther"}.get(kind) or "(PTImage %s %s)" % (cfg, _b(ok == "1"))
+            exp = "[" + "; ".join([] if obs == "-" else obs.split("+")) + "]"
+            goals.append((i, "prologue_fetches %s %s %s %s %s = %s" % (_b(rf == "1"), r0, mp, pt, _nats(p[4]), exp)))
+            goals.append((i, "cache_after_resolve %s %s %s %s = %s" % (_b(rf == "1"), _b(ismf == "1"), _b(empty == "1"), r0, _nats(p[4]))))
+            if len(goals) >= 2 * want:
+                break
+    vdir = os.path.join(build, "vm")
+    os.makedirs(vdir, exist_ok=True)
+    vf = os.path.join(vdir, "GC01_prologue.v")
+    with open(vf, "w") as f:
+        f.write(_PRO_PRELUDE)
+        for i, g in goals:
+            f.write("\n(* %s *)\nGoal %s.\nProof. vm_compute. reflexivity. Qed.\n" % (i, g))
+    p = subprocess.run(["coqc", "-R", coq, "Oras", "-w", "-notation-overridden", vf], cwd=vdir, timeout=900,
+                       stdout=subprocess.PIPE, stderr=subprocess.STDOUT, text=True)
+    with open(os.path.join(d, "prologue_check.txt"), "w") as f:
+        f.write("%d goals rc=%d\n%s" % (len(goals), p.returncode, p.stdout[-3000:]))
+    if p.returncode != 0:
+        return ["prologue check: the prologue's source reads / the initial proxy cache differ from CopyTop.prologue_fetches / "
+                "cache_after_resolve: %s" % p.stdout[-700:]]
+    if len(goals) < 20:
+        return ["prologue check: only %d goals" % len(goals)]
+    return []
+
+
 def links_check(d, tier, coq, build):
     """every distinct generated graph: the regenerated link schema applied to the generator's fields gives the
     successor lists and flags that the acceptor was run with (vm_compute inside Coq)"""
@@ -208,6 +257,6 @@ def vm_sample(gen):
         if len(goals) < min(want, 20):
             return ["in-Coq re-evaluation: only %d cases could be sampled" % len(goals)]
         if gen == "GC01":
-            return links_check(d, tier, coq, build)
+            return links_check(d, tier, coq, build) + prologue_check(d, tier, coq, build)
         return []
     return hook
